@@ -59,6 +59,12 @@ CHECKS = {
    design="5 (C06), 4.10",
    note="primitives with side effects on the sandbox (io, fs, process, http, sleep) are not called; the harness builds gluon with the dev profile (overflow checks on), as the repository's own tests do",
    technique="TLC enumeration of the primitive contract (Prims.tla) + trace validation of sessions (Session.tla) in crash-isolating workers"),
+ "C07": dict(
+   level="model_checking",
+   text="MemLimit.tla (allocation accounting contract; the transcription of the coded guard predicts a bounded overshoot) and VMFrames.tla (frame shape machine: stack limit tested at every entry, DepthBound - the compile-time max_stack_size bounds a frame's growth -, TailCallNoGrowth, OffsetsMonotone) are model-checked; TailCtx.tla enumerates all compositions of tail-position contexts (if/match/let/rec-let bodies, && and || right operands) x loop shapes (direct, mutual, through a closure, over-application). Binding: every loop runs 60 iterations with frame events validated by TLC against Trace_VMFrames.tla and 10^3 / 10^5 iterations under a 4096-slot limit (peak stack must not grow); non-tail recursion x stack limits (value or StackOverflow, never a crash, peak <= limit); allocation templates x memory limits with gc events validated against Trace_MemLimit.tla (contract and as-coded variants); an interrupt from another OS thread must stop a spinning program.",
+   design="5 (C07), 4.3, 4.7",
+   note="events come from the hooks in stack.rs / thread.rs / gc.rs; the transient placement of a tail call's arguments above the popped frame is exempt from DepthBound; native-stack exhaustion is observed as a signal of the isolated worker",
+   technique="TLC model checking (MemLimit, VMFrames, TailCtx) + trace validation of recorded frame / gc events + limit sweeps"),
 }
 NOT_BUILT = "check not built yet (work in progress; see DESIGN.md section 5)"
 NA = {}
